@@ -400,9 +400,6 @@ class SInt(_Num):
     def __index__(self):
         return ctx().concretize(self.t)
 
-    def __int__(self):
-        return self
-
     __lt__ = _cmp(lambda a, b: a < b)
     __le__ = _cmp(lambda a, b: a <= b)
     __gt__ = _cmp(lambda a, b: a > b)
